@@ -12,9 +12,12 @@
 // See the License for the specific language governing permissions and
 // limitations under the License.
 
-use crate::term::OwnedTerm;
+use crate::term::{
+    OwnedTerm, compare_bigint, compare_bigint_float, compare_bigint_int, compare_float_bigint,
+    compare_float_int, compare_int_bigint, compare_int_float,
+};
 use crate::types::{
-    Atom, BigInt, ExternalFun, ExternalPid, ExternalPort, ExternalReference, InternalFun, Sign,
+    Atom, BigInt, ExternalFun, ExternalPid, ExternalPort, ExternalReference, InternalFun,
 };
 use std::borrow::Cow;
 use std::cmp::Ordering;
@@ -588,112 +591,6 @@ impl<'a> Index<&BorrowedTerm<'a>> for BorrowedTerm<'a> {
             BorrowedTerm::Map(m) => m.get(key).unwrap_or_else(|| panic!("key not found in map")),
             _ => panic!("cannot index {} with a key", self.type_name()),
         }
-    }
-}
-
-fn compare_int_bigint(i: i64, big: &BigInt) -> Ordering {
-    if big.digits.is_empty() {
-        return i.cmp(&0);
-    }
-
-    if big.sign.is_negative() {
-        if i >= 0 {
-            return Ordering::Greater;
-        }
-        if big.digits.len() > 8 {
-            return Ordering::Greater;
-        }
-        let abs_i = i.wrapping_neg() as u64;
-        let big_val = bigint_to_u64(big);
-        abs_i.cmp(&big_val).reverse()
-    } else {
-        if i < 0 {
-            return Ordering::Less;
-        }
-        if big.digits.len() > 8 {
-            return Ordering::Less;
-        }
-        let abs_i = i as u64;
-        let big_val = bigint_to_u64(big);
-        abs_i.cmp(&big_val)
-    }
-}
-
-fn compare_bigint_int(big: &BigInt, i: i64) -> Ordering {
-    compare_int_bigint(i, big).reverse()
-}
-
-fn compare_bigint(a: &BigInt, b: &BigInt) -> Ordering {
-    match (a.sign, b.sign) {
-        (Sign::Positive, Sign::Negative) => Ordering::Greater,
-        (Sign::Negative, Sign::Positive) => Ordering::Less,
-        (Sign::Positive, Sign::Positive) => a
-            .digits
-            .len()
-            .cmp(&b.digits.len())
-            .then_with(|| a.digits.cmp(&b.digits)),
-        (Sign::Negative, Sign::Negative) => a
-            .digits
-            .len()
-            .cmp(&b.digits.len())
-            .then_with(|| a.digits.cmp(&b.digits))
-            .reverse(),
-    }
-}
-
-fn bigint_to_u64(big: &BigInt) -> u64 {
-    let mut result = 0u64;
-    for (i, &byte) in big.digits.iter().enumerate().take(8) {
-        result |= (byte as u64) << (i * 8);
-    }
-    result
-}
-
-fn compare_int_float(i: i64, f: f64) -> Ordering {
-    if f.is_nan() {
-        return Ordering::Less;
-    }
-    let i_as_f = i as f64;
-    i_as_f.partial_cmp(&f).unwrap_or(Ordering::Equal)
-}
-
-fn compare_float_int(f: f64, i: i64) -> Ordering {
-    compare_int_float(i, f).reverse()
-}
-
-fn compare_bigint_float(big: &BigInt, f: f64) -> Ordering {
-    if f.is_nan() {
-        return Ordering::Less;
-    }
-    let big_as_f = bigint_to_f64(big);
-    big_as_f.partial_cmp(&f).unwrap_or(Ordering::Equal)
-}
-
-fn compare_float_bigint(f: f64, big: &BigInt) -> Ordering {
-    compare_bigint_float(big, f).reverse()
-}
-
-fn bigint_to_f64(big: &BigInt) -> f64 {
-    let mut result = 0f64;
-    let mut scale = 1.0f64;
-
-    for &byte in big.digits.iter() {
-        let contribution = (byte as f64) * scale;
-        if contribution.is_infinite() || scale.is_infinite() {
-            return if big.sign.is_negative() {
-                f64::NEG_INFINITY
-            } else {
-                f64::INFINITY
-            };
-        }
-        result += contribution;
-        scale *= 256.0;
-    }
-
-    if big.sign.is_negative() {
-        -result
-    } else {
-        result
     }
 }
 
